@@ -413,6 +413,56 @@ def rewrite_timeouts(src, lo, hi, edits, stats):
             stats["R18"] = stats.get("R18", 0) + 1
 
 
+def chain_start(src, j, lo):
+    """token index where the postfix/path expression ending at token j starts (idents, `self`, literals, `.`/`::` chains,
+    call/index/paren groups); raises LostAnchor on anything else"""
+    toks = src.toks
+    while True:
+        t = toks[j]
+        if t.text in (")", "]"):
+            op = "(" if t.text == ")" else "["
+            d = 0
+            while True:
+                if toks[j].text == t.text:
+                    d += 1
+                elif toks[j].text == op:
+                    d -= 1
+                    if d == 0:
+                        break
+                j -= 1
+            # a call / index: the callee is in front of the group
+            if toks[j - 1].kind == "ident" or toks[j - 1].text in (")", "]", ">"):
+                if toks[j - 1].text == ">":
+                    raise LostAnchor(f"{src.path}:{src.line_of(t.start)}: unsupported expression shape (turbofish) in front of a cast/timeout")
+                j -= 1
+                continue
+            return j
+        if t.kind in ("ident", "number", "int", "literal") or t.text == "self" or t.text[:1].isdigit():
+            if j - 1 >= lo and toks[j - 1].text == ".":
+                j -= 2
+                continue
+            if j - 2 >= lo and toks[j - 1].text == ":" and toks[j - 2].text == ":":
+                j -= 3
+                continue
+            return j
+        raise LostAnchor(f"{src.path}:{src.line_of(t.start)}: unsupported expression shape in front of a cast/timeout")
+
+
+def rewrite_casts(src, lo, hi, edits, stats):
+    """R19: `EXPR as <integer type>` -> `(#[verifier::truncate] (EXPR as <integer type>))`.  Rust defines every integer `as`
+    cast (truncation / two's complement reinterpretation); Verus leaves an out-of-range cast unspecified unless it carries this
+    marker.  The marker changes nothing in the code."""
+    toks = src.toks
+    ints = ("u8", "u16", "u32", "u64", "u128", "usize", "i8", "i16", "i32", "i64", "i128", "isize")
+    for i in range(lo, hi):
+        t = toks[i]
+        if t.kind == "ident" and t.text == "as" and toks[i + 1].text in ints and toks[i - 1].text not in ("::", "use"):
+            a = chain_start(src, i - 1, lo)
+            edits.add(toks[a].start, toks[a].start, "(#[verifier::truncate] (", "R19", "integer cast marked truncating")
+            edits.add(toks[i + 1].end, toks[i + 1].end, "))", "R19", "")
+            stats["R19"] = stats.get("R19", 0) + 1
+
+
 def rewrite_for_loops(src, lo, hi, edits, stats):
     """R4: `for PAT in EXPR { BODY }` over a non-range iterator =>
            `{ let mut __itK = EXPR; loop <spec> { match __itK.next() { Some(PAT) => { BODY } None => break, } } }`
@@ -605,6 +655,8 @@ def gen_fn(repo, d, body, report):
     # body
     body_rewrites(src, f["body_open"] + 1, f["body_close"], edits, subst, stats, opts)
     rewrite_loop_values(src, f["body_open"] + 1, f["body_close"], edits, stats, {k: v for k, v in d.items() if k.startswith("__brk")})
+    if d.get("truncate_casts") == "1":
+        rewrite_casts(src, f["body_open"] + 1, f["body_close"], edits, stats)
     if d.get("timeouts") == "1":
         rewrite_timeouts(src, f["body_open"] + 1, f["body_close"], edits, stats)
         edits.add(bo.end, bo.end, " let mut __dl = TimeoutScope::none(); ", "R18", "the function's timeout scope object")
